@@ -783,21 +783,6 @@ def tdb_rules(ctx, A):
     census(ctx, A)
 
 
-def push_conditions(fn, block):
-    """the atomic conditions under which `block` runs (every dominating switch edge outside `?` and loop drivers), combinator
-    chains unfolded: [predicate]"""
-    from mirlib import _edge_conds, opt_sem, conj_simplify
-    out = []
-    for _b, c, lab in _edge_conds(fn, block):
-        p = norm_pred(c, lab)
-        if p[0] == 'is_some' and strip(p[1])[0] == 'call':
-            conds, _v = opt_sem(fn, p[1])
-            out.extend(canon_pred(x) for x in conj_simplify(conds))
-        else:
-            out.append(p)
-    return out
-
-
 def diff_sem(fn, amount):
     """a padding amount as a difference: (minuend, subtrahend, conditions folded into the expression, the checked_sub call or None)
     for `a.checked_sub(b)` taken out of its Some, for `a - b`, and for the payload of a combinator chain ending in one of them"""
